@@ -91,7 +91,7 @@ def fmt(t, precision="any", constraint="exact"):
     return head + ("." + frac if frac else "") + "Z"
 
 
-CANON_RE = re.compile(r"^(\d{4})-(\d{2})-(\d{2})T(\d{2}):(\d{2}):(\d{2})(?:\.(\d+))?Z$")
+CANON_RE = re.compile(r"^(\d{4})-(\d{2})-(\d{2})T(\d{2}):(\d{2}):(\d{2})(?:\.(\d+))?Z\Z")
 
 
 def parse(text):
